@@ -160,6 +160,14 @@ def r4_3(cx):
     cs = list(f.calls(cbb))
     cx.require(len(cs) == 1, 'advance_slices no longer calls consume_by_bytes exactly once')
     a = cs[0].arg(1)
+    def stable_len(e):
+        return is_call(e, 'len') and any(is_call(c, sp) for c in e.walk() if c.kind == 'call')
+
+    def remaining(e):
+        # the same sum counted down: a budget that starts at `count` and loses the length of each stable slice
+        alts = [x.strip() for x in phi_alts(e)]
+        return bool(alts) and all(x.kind == 'param' or (x.kind == 'binop' and x.op == 'Sub' and stable_len(x.b) and x.a.strip().kind in ('param', 'local', 'phi'))
+                                  for x in alts) and any(x.kind == 'param' for x in alts)
     kinds = set()
     for alt in phi_alts(a):
         alt = alt.strip()
@@ -167,11 +175,14 @@ def r4_3(cx):
             kinds.add('0')
         elif alt.kind == 'param':
             kinds.add('count')
-        elif alt.kind == 'binop' and alt.op == 'Add' and is_call(alt.b, 'len') and any(is_call(c, sp) for c in alt.b.walk() if c.kind == 'call'):
+        elif alt.kind == 'binop' and alt.op == 'Add' and stable_len(alt.b):
             kinds.add('sum-of-stable-slices')
+        elif alt.kind == 'binop' and alt.op == 'Sub' and alt.a.strip().kind == 'param' and remaining(alt.b):
+            kinds.add('count-minus-what-is-left')
         else:
             kinds.add('other:' + show(alt)[:60])
-    cx.check(kinds == {'0', 'count', 'sum-of-stable-slices'}, 'advance-clamped', f, cs[0].loc(), 'byte budget in {0, sums of stable_prefix() slice lengths, count}',
+    cx.check(kinds in ({'0', 'count', 'sum-of-stable-slices'}, {'count', 'count-minus-what-is-left'}), 'advance-clamped', f, cs[0].loc(),
+             'byte budget in {0, sums of stable_prefix() slice lengths, count} (or the same sum counted down from count)',
              fail_detail='advance_slices hands consume_by_bytes %s' % sorted(kinds))
     # `count` only where the current stable slice covers the rest
     okc = False
@@ -181,8 +192,8 @@ def r4_3(cx):
             if v.kind == 'param' and f.locals[st['pl']['l']] == 'usize' and st['pl']['l'] not in range(1, f.argc + 1):
                 for e, val, ed in f.facts_at(pos.bb):
                     rel = as_relation((e, val))
-                    if rel and rel[0] == 'Ge' and is_call(rel[1], 'len') and any(is_call(c, sp) for c in rel[1].walk() if c.kind == 'call') and \
-                            rel[2].strip().kind == 'binop' and rel[2].strip().op == 'Sub' and rel[2].strip().a.strip().kind == 'param':
+                    if rel and rel[0] == 'Ge' and stable_len(rel[1]) and \
+                            ((rel[2].strip().kind == 'binop' and rel[2].strip().op == 'Sub' and rel[2].strip().a.strip().kind == 'param') or remaining(rel[2])):
                         okc = True
     cx.check(okc, 'advance-count-guard', f, None, 'the budget becomes `count` only where len(stable slice) >= count - consumed so far',
              fail_detail='advance_slices can take `count` without a stable slice covering it')
